@@ -191,7 +191,7 @@ def check_C01(ctx):
 
 def check_C02(ctx):
     import oracles
-    fs_property(ctx, "C02", "C02", ["C02_readonly_refuses", "C02_step", "C02_init_good", "C02_history", "C02_create_existing", "C02_rename", "C02_remove_all"], oracles.c02, classify=classify_C02, needs_ref=True)
+    fs_property(ctx, "C02", "C02", ["C02_readonly_refuses", "C02_step", "C02_init_good", "C02_history", "C02_create_existing", "C02_create_existing_empty", "C02_create_pre_existing", "C02_rename", "C02_remove_all"], oracles.c02, classify=classify_C02, needs_ref=True)
 
 
 def check_C04(ctx):
